@@ -5,7 +5,7 @@
 using namespace nix;
 using namespace vh;
 
-#define N_VICTIMS 22
+#define N_VICTIMS 23
 
 extern "C" void vh_c04_delete() {
     nixsym_declare_reach("checked");
@@ -39,6 +39,7 @@ extern "C" void vh_c04_delete() {
     case 19: DEL3(w.da_u, w.b, deleteDataArray, UUID_NAME); break;
     case 20: DEL3(w.src_leaf, w.src_child2, deleteSource, "leaf"); break;
     case 21: DEL3(w.sec_grand, w.sec_child, deleteSection, "grand"); break;
+    case 22: DEL3(w.b2_df, w.b2, deleteDataFrame, "df2"); break;                 // held by a data-frame dimension, in a block without tags or groups
     }
     nixsym_assert(ok, "delete reports success");
     nixsym_assert(!valid_after, "handle to the deleted entity reports itself invalid");
